@@ -16,7 +16,10 @@
 
    The audio source is represented by the SCRIPT of results its successive
    [readframes(352)] calls return (list of [Ok chunk | Raise e]; once the script is used
-   up the source answers NO_FRAMES for ever).  [file_script] is the script produced by
+   up the source answers NO_FRAMES for ever).  For buffered sources the abstraction is
+   "eventually delivers all frames": an empty answer means end of audio only when the
+   producer has finished (a source that answers nothing while its producer is merely late
+   breaks the property - the send loop takes it for the end and starts the silence).  [file_script] is the script produced by
    FileSource for a given sample buffer.  Timing (Statistics/monotonic) is not modelled:
    the environment supplies, per lap of the send loop, the value [frames_behind] had and
    whether stop() was called; the theorems quantify over all such schedules.
